@@ -34,6 +34,10 @@ func corpus() []ccase {
 		// two databases: a collection of the first database created after the listing, with a partition
 		{2, []write{cw(0, 2, 200, "x", "SCreated", 5), cw(2, 1, 100, "a", "SCreated", 10), pw(2, 100, 1000, "p1", "SCreated"),
 			cw(4, 1, 101, "b", "SCreated", 20), pw(4, 101, 1001, "p1", "SCreated")}},
+		// a database created after the task has started (after StartWatch), then a collection with a partition in it
+		{24, []write{cw(0, 1, 100, "a", "SCreated", 10), cw(4, 2, 200, "x", "SCreated", 20), pw(4, 200, 2001, "p1", "SCreated")}},
+		// ... created between the two listings
+		{22, []write{cw(0, 1, 100, "a", "SCreated", 10), cw(2, 2, 200, "x", "SCreated", 20), pw(3, 200, 2001, "p1", "SCreated"), cw(4, 2, 201, "y", "SCreated", 30)}},
 		// notified twice: listed and then written again after the watch was opened
 		{1, []write{cw(0, 1, 100, "a", "SCreated", 10), cw(4, 1, 100, "a", "SCreated", 10), pw(0, 100, 1000, "p1", "SCreated"), pw(4, 100, 1000, "p1", "SCreated")}},
 	}
@@ -42,8 +46,12 @@ func corpus() []ccase {
 func generate(a *hx.Args) (int, []write) {
 	r := a.Rng
 	dbs := 1
+	dbPhase := 0
 	if r.Intn(3) == 0 {
 		dbs = 2
+		if r.Intn(2) == 0 {
+			dbPhase = 1 + r.Intn(4) // the second database is created while the reader starts up, or later
+		}
 	}
 	names := []string{"a", "b", "c"}
 	var ws []write
@@ -55,6 +63,9 @@ func generate(a *hx.Args) (int, []write) {
 		name := names[r.Intn(len(names))]
 		ct += uint64(1 + r.Intn(5))
 		phase := r.Intn(5)
+		if db == 2 && phase < dbPhase {
+			phase = dbPhase
+		}
 		next := func() {
 			if r.Intn(2) == 0 && phase < 4 {
 				phase += 1 + r.Intn(4-phase)
@@ -114,5 +125,8 @@ func generate(a *hx.Args) (int, []write) {
 	}
 	// writes are made phase by phase; inside a phase in the order generated (a collection before its partitions)
 	sort.SliceStable(ws, func(i, j int) bool { return ws[i].phase < ws[j].phase })
+	if dbs == 2 && dbPhase > 0 {
+		return 20 + dbPhase, ws
+	}
 	return dbs, ws
 }
